@@ -44,3 +44,21 @@ func Glob(pattern string) ([]string, error) { return simrt.S.FS.GoGlob(pattern) 
 func Walk(root string, fn WalkFunc) error {
 	return simrt.S.FS.GoWalk(root, func(p string, i iofs.FileInfo, e error) error { return fn(p, i, e) })
 }
+
+func EvalSymlinks(p string) (string, error) { return real.Clean(p), nil }
+
+type walkDirEntry struct{ fi iofs.FileInfo }
+
+func (d walkDirEntry) Name() string                 { return d.fi.Name() }
+func (d walkDirEntry) IsDir() bool                  { return d.fi.IsDir() }
+func (d walkDirEntry) Type() iofs.FileMode          { return d.fi.Mode().Type() }
+func (d walkDirEntry) Info() (iofs.FileInfo, error) { return d.fi, nil }
+
+func WalkDir(root string, fn iofs.WalkDirFunc) error {
+	return simrt.S.FS.GoWalk(root, func(p string, i iofs.FileInfo, e error) error {
+		if i == nil {
+			return fn(p, nil, e)
+		}
+		return fn(p, walkDirEntry{i}, e)
+	})
+}
